@@ -36,7 +36,7 @@ def _imports():
 
 def mk_inputs(rng, case, n):
     ins = []
-    interesting = [prankgen.EOA1, prankgen.EOA2, prankgen.REC1, prankgen.ROOT, foundry.HEVM, 0, 1, 2**160 - 1, 2**160 + prankgen.EOA1, 2**256 - 1]
+    interesting = [prankgen.EOA1, prankgen.EOA2, prankgen.REC1, prankgen.REC1, prankgen.REC2, prankgen.REC2, prankgen.FORK, prankgen.ROOT, foundry.HEVM, 0, 1, 2**160 - 1, 2**160 + prankgen.EOA1, 2**256 - 1]
     for _ in range(n):
         i = diffcore.Input()
         i.cd = [rng.choice(interesting) if rng.random() < 0.6 else rng.getrandbits(rng.choice([8, 160, 256])) for _ in range(case.ncd)]
